@@ -188,7 +188,19 @@ pub fn plan(seed: u64, corpus: &[Input], thorough: bool) -> Plan {
     let mut roles: Vec<&'static str> = vec![];
     let mut names: Vec<String> = vec![];
     let mut fault_classes: Vec<Vec<&'static str>> = vec![];
-    for t in 0..cfg.n_targets {
+    // one run in 20 is a *probe run* when the tree has parameter words no example uses: every
+    // target probes the same (word, trait) pair in another form / level / kind of item
+    let probe_run = if rng.chance(1, 20) { gen::probe_pair(&mut rng) } else { None };
+    let n_targets_planned = if probe_run.is_some() { 6 } else { cfg.n_targets };
+    for t in 0..n_targets_planned {
+        if let Some((word, tr)) = &probe_run {
+            let name = format!("G{}", t);
+            inputs.push(gen::param_probe_for(&mut rng, &name, word, tr));
+            names.push(name);
+            fault_classes.push(vec![]);
+            roles.push("target/probe");
+            continue;
+        }
         if !corpus.is_empty() && rng.chance(cfg.corpus_pct, 100) {
             let c = rng.pick(corpus);
             inputs.push(c.text.clone());
@@ -198,7 +210,7 @@ pub fn plan(seed: u64, corpus: &[Input], thorough: bool) -> Plan {
         } else {
             let name = if rng.chance(1, 3) { gen::shared_type_name(&mut rng) } else { format!("G{}", t) };
             let opts = GenOpts { error_pct: 25, into_heavy: rng.chance(3, 10) };
-            let (text, classes) = if rng.chance(1, 8) {
+            let (text, classes) = if rng.chance(1, 5) {
                 // a parameter probe (undocumented aliases, parameters a change has just introduced)
                 (gen::param_probe(&mut rng, &name), vec![])
             } else {
